@@ -11,7 +11,7 @@ Definition with_header (k v : string) : list header := good_request ++ [(s2z k, 
 Definition without (k : string) : list header :=
   filter (fun h => negb (zlist_eqb (fst h) (s2z k))) good_request.
 Definition trailers_ok : frame := FTrailers 0 None.
-Definition noeof (c : card) (x : extk) : env := mkE c 1 false false x None.
+Definition noeof (c : card) (x : extk) : env := mkE c 1 false false x None false.
 
 (* a streaming handler: recv, headers, two messages around a sleep, return *)
 Definition p_stream : prog := mkP [Recv; SendInitial false; SendMessage false; Sleep; SendMessage false] (Fin Return) Honour.
@@ -77,7 +77,7 @@ Proof. vm_compute. repeat split. Qed.
 (* deadline falls into the second Sleep of a streaming handler *)
 Example ex_deadline_in_sleep :
   let hs := with_header "grpc-timeout" "23436u" in
-  let r := run_call known_paths hs (mkE SS 1 false true ENone (Some 1%nat))
+  let r := run_call known_paths hs (mkE SS 1 false true ENone (Some 1%nat) false)
              (mkP [Sleep; SendMessage false; Sleep; SendMessage false] (Fin Return) Honour) in
   r_end r = KCancelled CDeadline /\ r_out r = [resp_headers; FData; FTrailers 4 None].
 Proof. vm_compute. repeat split. Qed.
@@ -188,4 +188,18 @@ Proof. vm_compute. repeat split. Qed.
 Example ex_message_fails_partway :
   let r := run_call known_paths good_request (std_env UU ENone) (mkP [SendMessage true] (Fin Return) Honour) in
   r_results r = [RError] /\ r_out r = [resp_headers; FTrailers 2 (Some internal_msg)].
+Proof. vm_compute. repeat split. Qed.
+
+(* a deadline that has expired on arrival while the transport is paused: the handler is not called, the
+   DEADLINE_EXCEEDED trailers go out as soon as the environment resumes writing -- for every cardinality *)
+Example ex_expired_paused :
+  forallb (fun c => match r_out (run_call known_paths (with_header "grpc-timeout" "0n") (mkE c 1 false false ENone None true) p_stream)
+                    with [FHeaders 200 true (Some 4) None true; FRst] => true | _ => false end) [UU; US; SU; SS] = true.
+Proof. vm_compute. reflexivity. Qed.
+
+(* transport paused from the start, valid request: the first sending call waits; the deadline ends it *)
+Example ex_paused_from_start :
+  let r := run_call known_paths (with_header "grpc-timeout" "100S") (mkE UU 1 false true ENone None true)
+             (mkP [Recv; SendMessage false] (Fin Return) Honour) in
+  r_results r = [RMsg; RCancelled] /\ r_out r = [FHeaders 200 true (Some 4) None true].
 Proof. vm_compute. repeat split. Qed.
